@@ -95,9 +95,18 @@ def run(ctx):
                 ctx.check(iv_n.ge(2) and pot, "R07-sizing-intervals", "%s:n_buckets" % h.key, t.span, "n_buckets in %r and a power of two (load factor %s)" % (iv_n, cargs[1][1]),
                           "n_buckets can be < 2 or is not rounded to a power of two (%r, %s): the constructor would panic for an admissible (p, n)" % (iv_n, fmt(nb)[:120]))
     # ---- fingerprint ------------------------------------------------------------------------------
-    fp = ctx.anchor(CF + "::fingerprint")
+    fp = prog.fn(CF + "::fingerprint")
     if fp is not None:
+        ctx.analysed_fns.add(fp.key)
         r = TermBuilder(fp, prog).return_term()
+    else:
+        # the helper may have been merged into its only caller: the fingerprint is then the first component of start()'s triple
+        fp = ctx.anchor(CF + "::start")
+        r = None
+        if fp is not None:
+            rs = TermBuilder(fp, prog).return_term()
+            r = rs[1][0] if rs[0] == "tuple" and len(rs[1]) == 3 else ("unknown", "start does not return a triple")
+    if fp is not None:
         okf = False
         why = fmt(r)
         if r[0] == "op" and r[1] == "Add" and len(r[2]) == 2 and const(1) in r[2]:
